@@ -1152,7 +1152,7 @@ static int emit_cases(const eng::Args& a)
         for (size_t i = all.size(); i-- > 0 && keep.size() < 14;) add(all[i]);       // random derivations and mutants come last in `all`
         for (size_t i = 0; i < all.size() && keep.size() < 22; i += 1 + rng.below(3)) add(all[i]);
         { gg::Input in; in.text = "  \n\t "; add(in); in.text = ""; add(in); }
-        for (int k = 0; k < 3 && !keep.empty(); ++k) { gg::Input in = keep[rng.below(uint32_t(keep.size()))]; in.text.insert(in.text.begin() + rng.below(uint32_t(in.text.size() + 1)), "z!@"[rng.below(3)]); add(in); }
+        for (int k = 0; k < 3 && !keep.empty(); ++k) { gg::Input in = keep[rng.below(uint32_t(keep.size()))]; static const char badb[] = {'z', '!', '@', '\0'}; in.text.insert(in.text.begin() + rng.below(uint32_t(in.text.size() + 1)), badb[rng.below(4)]); add(in); }      // a NUL byte is just another byte no term matches
         for (int k = 0; k < 2 && !keep.empty(); ++k) { gg::Input in = keep[rng.below(uint32_t(keep.size()))]; if (rng.chance(1, 2)) in.skip_nl = false; else in.skip_ws = false; in.text += rng.chance(1, 2) ? "\n a" : " b"; keep.push_back(in); }
         // half of the cases: real term kinds. Inputs are re-rendered with the spellings; the reference re-tokenises the new text.
         bool spelled = (ch.chance(1, 2) || getenv("EMIT_NAMED_TERMS") || getenv("EMIT_ALWAYS_SPELLED")) && !getenv("EMIT_NO_SPELLING");
